@@ -213,6 +213,7 @@ func c16Eval(c c16Case) (ok bool, sig, detail string) {
 		mut[c.Off] = byte(c.Byte)
 		lf := scanAll(c16Record(c.N, string(mut), false))
 		cr := scanAll(c16Record(c.N, string(mut), true))
+		engine.Outcome(fmt.Sprintf("%v|%d", lf.err, lf.records))
 		if lf.panicked != "" || cr.panicked != "" {
 			return false, "scan-panic", fmt.Sprintf("n=%d block[%d]=%q: scanner panics: %s%s", c.N, c.Off, byte(c.Byte), lf.panicked, cr.panicked)
 		}
